@@ -20,6 +20,10 @@ rs = bootstrap()
 # ---------------------------------------------------------------------------
 # named user functions
 
+from datetime import datetime as _datetime, timedelta as _timedelta     # noqa: E402
+_EPOCH = _datetime(2020, 1, 1)
+
+
 class Boom(Exception):
     """injected user-function failure (C13)"""
 
@@ -62,6 +66,7 @@ _FUNCS = {
     'div': lambda k: (lambda i: i // k),
     'neg': lambda: (lambda i: -i),
     'id': lambda: (lambda i: i),
+    'dt': lambda: (lambda i: _EPOCH + _timedelta(seconds=i)),
     # int -> other
     'pair': lambda: (lambda i: (i, i + 1)),
     'pairmod': lambda k: (lambda i: (i % k, i)),
@@ -359,7 +364,9 @@ def build_node(node, env=None, taps=None, path=()):
         if taps and path in taps:
             from .muxmon import tap
             head, tail = taps[path]
-            inner = [tap(head)] + inner + [tap(tail)]
+            head = tap(head) if isinstance(head, list) else head       # a log, or a prebuilt tap operator
+            tail = tap(tail) if isinstance(tail, list) else tail
+            inner = ([head] if head is not None else []) + inner + ([tail] if tail is not None else [])
         if name == 'group_by':
             return rs.ops.group_by(fn(node[1], env), inner)
         if name == 'roll':
@@ -367,9 +374,10 @@ def build_node(node, env=None, taps=None, path=()):
         if name == 'split':
             return rs.data.split(fn(node[1], env), inner)
         cfg = node[1]
+        conv = (lambda v: None if v is None else _timedelta(seconds=v)) if cfg.get('time') == 'dt' else (lambda v: v)
         return rs.data.time_split(
             time_mapper=fn(cfg.get('time', 'id'), env),
-            active_timeout=cfg.get('active'), inactive_timeout=cfg.get('inactive'),
+            active_timeout=conv(cfg.get('active')), inactive_timeout=conv(cfg.get('inactive')),
             closing_mapper=fn(cfg['closing'], env) if cfg.get('closing') else None,
             include_closing_item=cfg.get('include', True), pipeline=inner)
     return OPS[name].build(node, env)
